@@ -187,8 +187,8 @@ impl<M: MovingAverageConstructor> IndicatorInstance for RelativeVigorIndexInstan
 		// 	s2 = 0;
 		// }
 
-		let s2 = (s1 < 0 && rvi > self.cfg.zone && sig > self.cfg.zone) as i8
-			- (s1 > 0 && rvi < -self.cfg.zone && sig < -self.cfg.zone) as i8;
+		let s2 = (s1 > 0 && rvi < -self.cfg.zone && sig < -self.cfg.zone) as i8
+			- (s1 < 0 && rvi > self.cfg.zone && sig > self.cfg.zone) as i8;
 
 		IndicatorResult::new(&[rvi, sig], &[s1.into(), s2.into()])
 	}
